@@ -1,4 +1,73 @@
 import EaselModel.Sqio.DriverLogic
-/-! Line-protocol driver for the C07 model: the shared sequence-file model (EaselModel/Sqio), ops select the behaviour. -/
+import EaselModel.Sqio.AfetchModel
+/-! Line-protocol driver for the C07 model: the shared sequence-file model (EaselModel/Sqio) for the sequence ops, and the
+    esl-afetch model (Sqio/AfetchModel.lean over the C06 index model) for the alignment-database ops `adb`, `aget`, `ascan`. -/
 open EaselModel.Proto EaselModel.Sqio
-def main : IO Unit := runDriver ({} : DS) step
+
+structure DS7 where
+  base : DS := {}
+  adb : List UInt8 := []                 -- the alignment database
+  assi : Option (List UInt8) := none     -- the index file esl-afetch --index wrote
+  deriving Inhabited
+
+namespace AfetchDriver
+open EaselModel EaselModel.Afetch
+
+/-- the primary keys in index order with their offsets, read back from the index bytes through the C06 reader model -/
+def listing (ssi : List UInt8) : String :=
+  match Ssi.Ssi.open ssi.toArray with
+  | .error e => s!"open-{e.name}"
+  | .ok x =>
+    let items := (List.range x.nprimary).map fun (i : Nat) =>
+      match x.findNumber (Int.ofNat i) with
+      | .ok (h, kb) => s!"{hexOrDash (Ssi.cstr kb)}:{h.roff}:{h.doff}:{h.len}"
+      | .error e => e.name
+    s!"nprim={x.nprimary} nalias={x.nsecondary} keys={String.intercalate "," items}"
+
+def step (s : DS7) (ws : List String) : DS7 × String :=
+  match ws with
+  | "adb" :: _ =>
+    match argHex? ws "hex" with
+    | none => (s, "bad-op")
+    | some db =>
+      let fmt := if (arg? ws "fmt") == some "pfam" then 102 else fmtStockholm
+      let s := { s with adb := db, assi := none }
+      match scanDb db with
+      | none => (s, "die")
+      | some recs =>
+        match createIndex [116, 46, 115, 116, 111] db fmt with
+        | none => (s, "die")
+        | some ssi =>
+          let full := fullScan (Msafile.stockholmCfg none) ((Msafile.splitLines db).length + 1) (Msafile.splitLines db) []
+          let agree := full == some (recs.map fun r => (r.name, r.acc))
+          ({ s with assi := some ssi }, s!"ok nali={recs.length} {listing ssi} full={if agree then 1 else 0}")
+  | "aget" :: _ =>
+    match argHex? ws "key", s.assi with
+    | some key, some ssi =>
+      match onefetch s.adb ssi key with
+      | .ok out => (s, s!"ok hex={hexOrDash out}")
+      | .notfound => (s, "enotfound")
+      | .fatal => (s, "fatal")
+    | _, _ => (s, "bad-op")
+  | "ascan" :: _ =>
+    match argHex? ws "key", s.assi with
+    | none, _ => (s, "bad-op")
+    | _, none => (s, "bad-op")                -- no database indexed (the harness refuses too)
+    | some key, some _ =>
+      match scanDb s.adb with
+      | none => (s, "readfail")
+      | some recs =>
+        match seqFind recs key with
+        | some r => (s, s!"ok off={r.off} name={hexOrDash r.name} acc={match r.acc with | some a => hexOrDash a | none => "NULL"}")
+        | none => (s, "notfound")
+  | _ => (s, "bad-op")
+
+end AfetchDriver
+
+def step7 (s : DS7) (line : String) : DS7 × String :=
+  let ws := words line
+  match ws with
+  | "adb" :: _ | "aget" :: _ | "ascan" :: _ => AfetchDriver.step s ws
+  | _ => let (b, r) := step s.base line; ({ s with base := b }, r)
+
+def main : IO Unit := runDriver ({} : DS7) step7
